@@ -789,6 +789,24 @@ def array_chunk(seed, chunk, n_arrays, tier):
                     except Exception as e:  # noqa
                         fails.append((f"reshape of x.conj() after x itself was reshaped raises {type(e).__name__}: {e}",
                                       dict(meta, history="conj-after-reshape"), sorted(trig | {"raises"}), None))
+                if not errs and fam == "merge" and "ok" in res[1] and rng.random() < 0.3 and \
+                        not (window_match(x, want) or window_match(x, shape)):
+                    # the same trip with inplace=True must produce, in place, exactly what the out-of-place trip returns
+                    try:
+                        w = x.copy()
+                        r1 = w.reshape(t, inplace=True)
+                        ok1 = canon(w) == canon(env["y"]) and (r1 is w or r1 is None or canon(r1) == canon(env["y"]))
+                        w.reshape(shape, inplace=True)
+                        stats["inplace_trips"] += 1
+                        if not ok1:
+                            fails.append(("reshape(inplace=True) differs from the out-of-place result",
+                                          dict(meta, history="inplace"), sorted(trig), None))
+                        elif canon(w) != canon(env["z"]) or canon(w) != xcanon:
+                            fails.append(("reshape there and back with inplace=True does not restore the original exactly "
+                                          "(differs from the out-of-place trip)", dict(meta, history="inplace"), sorted(trig), None))
+                    except Exception as e:  # noqa
+                        fails.append((f"reshape(inplace=True) raises {type(e).__name__}: {e}",
+                                      dict(meta, history="inplace"), sorted(trig | {"raises"}), None))
                 if len(samples) < 2 and fam == "merge":
                     samples.append(meta)
     finally:
